@@ -193,6 +193,7 @@ Stops == {Stop(lm, <<21>>, <<31>>, 0, 0) : lm \in LM} \cup {Stop("SOLID", <<>>, 
                                                               Stop("DASHED", <<21>>, <<>>, 0, 1), Stop("DASHED", <<>>, <<31>>, 1, 0),
                                                               \* without points: "at the end of the lanelet"
                                                               StopP(0, "SOLID", <<21>>, <<31>>, 0, 0), StopP(0, "BROAD_SOLID", <<>>, <<>>, 1, 1)}
+         \cup {StopP(p, "SOLID", sr, lr, 0, 0) : p \in {0, 1}, sr \in {<<21>>, <<21, 22>>}, lr \in {<<31>>, <<31, 32>>}}   \* both kinds, 1 or 2 each
 LTypes == NameSet(LaneletTypeT)
 Users == NameSet(RoadUserT)
 LaneletPool ==
@@ -221,7 +222,7 @@ SignPool ==      \* <<sign, country of the scenario>>
 SignAllIds == {<<Sign(21, <<SignEl(SignIdGermanyT[i], <<>>)>>, XYp("ordinary", "neg"), 0, <<>>), c>> : i \in DOMAIN SignIdGermanyT, c \in {"ZAM", "DEU"}}
 (* virtual = TRUE triggers the known finding C01-virtual-attribute (XML reader): outside this small family XML cases use FALSE *)
 VirtualQuota == {Sign(21, <<SignEl(SignIdT[i], <<"50">>)>>, XYp("ordinary", "neg"), 1, <<>>) : i \in 1..3}
-QuotaOK(d) == \A s \in Range(d.signs) : s.virt = 1 => s \in VirtualQuota
+QuotaOK(d) == \A s \in Range(d.signs) : s.virt = 1 => [s EXCEPT !.id = 21] \in VirtualQuota        \* whatever id it got
 Colors == NameSet(LightStateT)
 Cycles == {<<Cyc(a, 1)>> : a \in Colors} \cup {<<Cyc(a, 2), Cyc(b, 30)>> : a, b \in Colors}
           \cup {<<Cyc("RED", 2), Cyc("RED_YELLOW", 1), Cyc(a, 5)>> : a \in Colors}
@@ -288,12 +289,11 @@ NumLight == {Light(31, <<Cyc("RED", 2)>>, 0, XYp(t, t), "ALL", 1) : t \in AnyTok
 (* ------------------------------ cases ------------------------------------------------------------------------------ *)
 Case(comp, d, desc) == [comp |-> comp, d |-> d, desc |-> desc]
 WithL1Refs(sr, lr) == [DefLanelet(1) EXCEPT !.signs = sr, !.lights = lr]
-NeedsSign(la) == 21 \in Range(la.signs) \cup UNION {Range(s.sref) : s \in Range(la.stop)}
-NeedsLight(la) == 31 \in Range(la.lights) \cup UNION {Range(s.lref) : s \in Range(la.stop)}
+SignsOf(la) == SortIds(Range(la.signs) \cup UNION {Range(s.sref) : s \in Range(la.stop)})
+LightsOf(la) == SortIds(Range(la.lights) \cup UNION {Range(s.lref) : s \in Range(la.stop)})
 (* a sign must be referenced by a lanelet (2020a); the lanelet under test references what its stop line references *)
-EmbedLanelet(la) == LET l2 == [la EXCEPT !.signs = IF NeedsSign(la) THEN <<21>> ELSE <<>>] IN
-                    World(DefHdr, l2, IF NeedsSign(la) THEN <<DefSign(21)>> ELSE <<>>, IF NeedsLight(la) THEN <<DefLight(31)>> ELSE <<>>,
-                          <<>>, <<>>, <<DefPP(91)>>)
+EmbedLanelet(la) == LET l2 == [la EXCEPT !.signs = SignsOf(la)] IN
+                    World(DefHdr, l2, Map(SignsOf(la), DefSign), Map(LightsOf(la), DefLight), <<>>, <<>>, <<DefPP(91)>>)
 EmbedSign(sc) == World([DefHdr EXCEPT !.cid = sc[2]], WithL1Refs(<<21>>, <<>>), <<sc[1]>>, <<>>, <<>>, <<>>, <<DefPP(91)>>)
 EmbedLight(t) == World(DefHdr, WithL1Refs(<<>>, <<31>>), <<>>, <<t>>, <<>>, <<>>, <<DefPP(91)>>)
 EmbedInter(x) == World(DefHdr, DefLanelet(1), <<>>, <<>>, <<x>>, <<>>, <<DefPP(91)>>)
@@ -329,13 +329,15 @@ MixedDesc(i) ==
 CasesOf(comp) ==
   CASE comp = "obstacle"     -> {Case("obstacle", 4, EmbedObst(o)) : o \in ObstaclePool}
     [] comp = "planning"     -> {Case("planning", 4, EmbedPP(p)) : p \in PPPool}
-    [] comp = "lanelet"      -> {Case("lanelet", 4, EmbedLanelet(la)) : la \in LaneletPool}
-    [] comp = "sign"         -> {Case("sign", 4, EmbedSign(sc)) : sc \in SignPool \cup SignAllIds}
-    [] comp = "light"        -> {Case("light", 4, EmbedLight(t)) : t \in LightPool}
-    [] comp = "intersection" -> {Case("intersection", 4, EmbedInter(x)) : x \in InterPool}
+    \* lanelet / light / intersection: every id-order token; sign: the tokens in rotation over the pool
+    [] comp = "lanelet"      -> {Case("lanelet", 4, Renumber(EmbedLanelet(la), tk)) : la \in LaneletPool, tk \in Range(IdTokens)}
+    [] comp = "sign"         -> LET sq == SetToSeq(SignPool \cup SignAllIds) IN
+                                {Case("sign", 4, Renumber(EmbedSign(sq[i]), IdTokens[(i % Len(IdTokens)) + 1])) : i \in DOMAIN sq}
+    [] comp = "light"        -> {Case("light", 4, Renumber(EmbedLight(t), tk)) : t \in LightPool, tk \in Range(IdTokens)}
+    [] comp = "intersection" -> {Case("intersection", 4, Renumber(EmbedInter(x), tk)) : x \in InterPool, tk \in Range(IdTokens)}
     [] comp = "header"       -> {Case("header", 4, EmbedHdr(h)) : h \in HeaderPool}
     [] comp = "numbers"      -> {Case("numbers", d, desc) : d \in Precisions, desc \in NumDescs}
-    [] comp \in {"mixed", "mixedx"} -> {Case("mixed", RandomElement(Precisions), MixedDesc(i)) : i \in 1..NMixed}   \* see ShardCases
+    [] comp \in {"mixed", "mixedx"} -> {Case("mixed", RandomElement(Precisions), Renumber(MixedDesc(i), RandomElement(Range(IdTokens)))) : i \in 1..NMixed}   \* see ShardCases
     \* small witnesses for the deviation configurations (DEV_Codec_*.cfg)
     [] comp = "dev_horn"     -> {Case("obstacle", 4, EmbedObst(Dyn("CAR", DefRect, InitFull, <<SigOf(TE(0), S, 1)>>, <<>>, 1, DefTraj))) :
                                    S \in {{"horn"}, {"horn", "braking_lights"}, {"braking_lights"}}}
@@ -349,7 +351,8 @@ Seed(k) == [comp |-> "seed", d |-> k, desc |-> <<>>]
 IsSeed == cs.comp = "seed"
 ShardCases(k) ==
   IF Component \in {"mixed", "mixedx"}
-  THEN {c \in {Case("mixed", RandomElement(Precisions), MixedDesc(i)) : i \in {j \in 1..NMixed : j % NShards = k - 1}} : WellFormed(c.desc)}
+  THEN {c \in {Case("mixed", RandomElement(Precisions), Renumber(MixedDesc(i), RandomElement(Range(IdTokens)))) :
+                 i \in {j \in 1..NMixed : j % NShards = k - 1}} : WellFormed(c.desc)}
   ELSE LET sq == SetToSeq({c \in Cases : WellFormed(c.desc)}) IN {sq[i] : i \in {j \in DOMAIN sq : j % NShards = k - 1}}
 Init == cs \in {Seed(k) : k \in 1..NShards}
 Next == IsSeed /\ cs' \in ShardCases(cs.d)
